@@ -5,7 +5,7 @@ from checks.decoder_common import run_property
 
 def jobs(tier):
     m = ("strict",)
-    return D.g_dispatch(m) + D.g_structs(m) + D.g_encrypt_any(m) + D.g_arrays(m) + D.g_frames(m) + D.g_leaf(m, deep=2) + D.g_region(m, tier) + D.g_typed(("INT", "VALID"))
+    return D.g_dispatch(m) + D.g_structs(m) + D.g_encrypt_any(m) + D.g_arrays(m) + D.g_frames(m) + D.g_leaf(m, deep=2) + D.g_region(m, tier) + D.g_typed(("INT", "VALID")) + D.g_pump(m)
 
 
 def keep(name, ob):
